@@ -1,6 +1,6 @@
 (** C06 lemmas, part 3: the layout relations of the one-line styles imply the guard [node_ok]. *)
-From Coq Require Import List String Ascii ZArith Bool Lia.
-From PintV Require Import Common.Bytes Model.Position Model.Layout Proofs.C06_expand Proofs.C06_match.
+From Coq Require Import List String Ascii ZArith NArith Bool Lia.
+From PintV Require Import Common.Bytes Model.CommentsUnicode Model.Position Model.Layout Proofs.C06_expand Proofs.C06_match.
 Import ListNotations.
 Local Open Scope Z_scope.
 Local Open Scope list_scope.
@@ -84,6 +84,39 @@ Proof.
   rewrite !Nat2Z.inj_succ. lia.
 Qed.
 
+(** ** Character columns are byte columns after an ASCII prefix *)
+
+Lemma decode_from_ascii c r i :
+  N.ltb (N_of_ascii c) 128 = true ->
+  decode_from 0 i (String c r) = (i, N_of_ascii c) :: decode_from 0 (S i) r.
+Proof. intros H. cbn [decode_from decode1]. rewrite H. reflexivity. Qed.
+
+Lemma byte_column_go_ascii : forall pre s i L,
+  ascii_only pre = true ->
+  L = Z.of_nat i + slen pre + slen s ->
+  byte_column_go (map fst (decode_from 0 i (pre ++ s))) (slen pre + 1) L = Z.of_nat i + slen pre + 1.
+Proof.
+  induction pre as [|c pre IH]; intros s i L Ha HL.
+  - cbn [append]. change (slen "") with 0 in *. destruct s as [|d r].
+    + cbn [decode_from map byte_column_go]. change (slen "") with 0 in HL. lia.
+    + cbn [decode_from]. destruct (decode1 (String d r)) as [rn w]. cbn [map fst byte_column_go].
+      replace (0 + 1 <=? 1) with true by reflexivity. lia.
+  - cbn [ascii_only] in Ha. apply andb_true_iff in Ha. destruct Ha as [Hc Ha].
+    cbn [append]. rewrite (decode_from_ascii _ _ _ Hc). cbn [map fst byte_column_go].
+    rewrite slen_String. pose proof (slen_nonneg pre) as Hp.
+    replace (slen pre + 1 + 1 <=? 1) with false by (symmetry; apply Z.leb_gt; lia).
+    replace (slen pre + 1 + 1 - 1) with (slen pre + 1) by lia.
+    rewrite (IH s (S i) L Ha); [lia|]. rewrite slen_String in HL. lia.
+Qed.
+
+Lemma byte_column_ascii pre s :
+  ascii_only pre = true -> byte_column (pre ++ s) (slen pre + 1) = slen pre + 1.
+Proof.
+  intros Ha. unfold byte_column, decode_all.
+  rewrite (byte_column_go_ascii pre s 0 (slen (pre ++ s)) Ha); [lia|].
+  rewrite slen_app. lia.
+Qed.
+
 (** ** One-line styles *)
 
 Lemma token_nonempty st v : v <> EmptyString -> token_of st v <> EmptyString.
@@ -103,8 +136,10 @@ Qed.
 Theorem lay1_node_ok : forall st lines n minCol,
   Lay1 st lines n -> node_ok lines n minCol = true.
 Proof.
-  intros st lines n minCol [Hv [[l [pre [post [Hl [El Ec]]]]] Hp]].
+  intros st lines n minCol [Hv [Hnn [Hblk [Hanc [[l [pre [post [Hl [El [Hasc Ec]]]]]] Hp]]]]].
   unfold node_ok. destruct (sn_value n) as [|need rest] eqn:Ev; [contradiction|].
+  rewrite Hblk.
+  rewrite Hnn. cbn [negb andb].
   unfold line_at in Hl. destruct (1 <=? sn_line n) eqn:E1; [|discriminate].
   cbn [andb].
   (* the suffix of the line table starts with l *)
@@ -113,7 +148,16 @@ Proof.
     induction k as [|k IH]; intros lines H.
     - destruct lines as [|x r]; [discriminate|]. cbn in H. inversion H; subst. exists r. reflexivity.
     - destruct lines as [|x r]; [discriminate|]. cbn in H. cbn [skipn]. apply IH. exact H. }
-  destruct Hsk as [more Hsk]. rewrite Hsk. cbn [lay_ok].
+  destruct Hsk as [more Hsk]. rewrite Hsk. cbv zeta.
+  assert (Hlen0 : slen l =? 0 = false).
+  { apply Z.eqb_neq. subst l. rewrite !slen_app.
+    pose proof (slen_nonneg pre). pose proof (slen_nonneg post).
+    assert (token_of st (String need rest) <> EmptyString) by (apply token_nonempty; discriminate).
+    destruct (token_of st (String need rest)); [contradiction|]. rewrite slen_String. pose proof (slen_nonneg s). lia. }
+  rewrite Hlen0.
+  assert (Hfc : first_col l n = sn_col n).
+  { unfold first_col. rewrite Hanc. rewrite Ec. subst l. apply byte_column_ascii. exact Hasc. }
+  rewrite Hfc. cbn [lay_ok].
   set (tok := token_of st (String need rest)) in *.
   assert (Htok : tok <> EmptyString) by (apply token_nonempty; discriminate).
   assert (Hlen : slen l = slen pre + slen tok + slen post) by (subst l; rewrite !slen_app; lia).
